@@ -37,7 +37,24 @@ LABELS = {  # kind -> (xpath of the faulted label, slots of the model, base text
 }
 
 
-def model(kind, text):
+# the same model with two dynamic templates in front; the faulted label and the labels after it quantify over dynamic instances
+# with the same binder name and different templates (the binder's template is remembered by name while its body is parsed)
+DYN_DECL = "dynamic Worker(int[0,3] wk); dynamic Probe(); "
+DYN_TEMPLATES = ('<template><name>Worker</name><parameter>int[0,3] wk</parameter><declaration>int load = 1; int k = 2;</declaration>'
+                 '<location id="w0"><name>Idle</name></location><init ref="w0"/></template>'
+                 '<template><name>Probe</name><declaration>int level = 2; int g = 3;</declaration>'
+                 '<location id="p0"><name>Wait</name></location><init ref="p0"/></template>')
+DYN_LABELS = {
+    "guard": ["forall (p : Worker) (p.load > k)", "exists (p : Probe) (p.level > 0) && forall (p : Worker) (p.load >= g)",
+              "forall (p : Worker) (exists (p : Probe) (p.level > k) && p.load > 0)", "(sum (p : Worker) (p.load)) > k"],
+    "invariant": ["forall (p : Worker) (p.load > 0) && x <= 9"],
+    "assignment": ["g = (sum (p : Worker) (p.load)), h[0] = (exists (p : Probe) (p.g > 0))"],
+    "exponentialrate": ["1 + (sum (p : Worker) (p.load))"],
+}
+DYN_SIGMA = ["p", "Worker", "Probe", "load", "level", "sum"]
+
+
+def model(kind, text, dyn=False):
     """the label of the given kind is the faulted one; all other labels are fixed"""
     lab = lambda kd, tx: '<label kind="%s">%s</label>' % (kd, X.esc(tx))     # noqa: E731
     d = {"guard": "k >= 0", "synchronisation": "c[k]!", "assignment": "g = k", "invariant": "x <= k + 5", "exponentialrate": "k + 1",
@@ -53,16 +70,17 @@ def model(kind, text):
           '<location id="id0"><name>A</name>%s</location><location id="id1"><name>B</name><label kind="invariant">x &lt;= k + 7</label></location>'
           '<branchpoint id="id2"/><init ref="id0"/>'
           '<transition><source ref="id0"/><target ref="id1"/>%s</transition>'
-          '<transition><source ref="id1"/><target ref="id2"/><label kind="guard">k == 1</label><label kind="assignment">lv = k</label></transition>'
+          '<transition><source ref="id1"/><target ref="id2"/><label kind="guard">k == 1%s</label><label kind="assignment">lv = k</label></transition>'
           '<transition><source ref="id2"/><target ref="id0"/>%s<label kind="assignment">g = k + 1</label></transition>'
           '<transition><source ref="id2"/><target ref="id1"/><label kind="probability">k + 3</label></transition>'
-          "</template>") % (loc0, e0, eprob)
+          "</template>") % (loc0, e0, X.esc(" && forall (p : Probe) (p.level > k)") if dyn else "", eprob)
     t2 = ('<template><name>T2</name><parameter>int[0,9] q</parameter><declaration>int m;</declaration>'
           '<location id="id5"><name>M0</name><label kind="invariant">x &lt;= k + q</label></location><init ref="id5"/>'
           '<transition><source ref="id5"/><target ref="id5"/><label kind="select">s : int[0,k]</label>'
-          '<label kind="guard">k + s &gt;= q</label><label kind="assignment">m = k</label></transition></template>')
-    return (X.HEADER + "<nta><declaration>%s</declaration>%s%s<system>P = T1(k); Q = T2(k); system P, Q;</system></nta>\n"
-            % (X.esc(GDECL), t1, t2))
+          '<label kind="guard">k + s &gt;= q%s</label><label kind="assignment">m = k</label></transition></template>'
+          % (X.esc(" && exists (p : Probe) (p.level >= s) && forall (p : Worker) (p.k == 2)") if dyn else ""))
+    return (X.HEADER + "<nta><declaration>%s</declaration>%s%s%s<system>P = T1(k); Q = T2(k); system P, Q;</system></nta>\n"
+            % (X.esc((DYN_DECL if dyn else "") + GDECL), DYN_TEMPLATES if dyn else "", t1, t2))
 
 
 XPATH = {"guard": "/nta/template[1]/transition[1]/label[2]", "synchronisation": "/nta/template[1]/transition[1]/label[3]",
@@ -73,8 +91,19 @@ SIGMA = ["k", "g", "h", "x", "c", "fn", "zz", "0", "1", "(", ")", "[", "]", "{",
          "==", "&&", "=", "++", "forall", "exists", "int", "true", "/*", "@", "2147483648", "1.5"]
 
 
-def label_faults(kind, t):
+def label_faults(kind, t, dyn=False):
     out = []
+    if dyn:
+        for base in DYN_LABELS[kind]:
+            toks = [(m.start(), m.end(), m.group(0)) for m in TOKEN.finditer(base)]
+            for i, (a, b, tok) in enumerate(toks):
+                out.append(("delete@%d" % i, base[:a] + base[b:]))
+                out.append(("truncate@%d" % i, base[:b]))
+                out.append(("comment@%d" % i, base[:a] + "/* " + base[a:]))
+                for s in SIGMA + DYN_SIGMA:
+                    out.append(("replace@%d:%s" % (i, s), base[:a] + s + base[b:]))
+                    out.append(("insert@%d:%s" % (i, s), base[:a] + s + " " + base[a:]))
+        return out
     for base in LABELS[kind]:
         toks = [(m.start(), m.end(), m.group(0)) for m in TOKEN.finditer(base)]
         for i, (a, b, tok) in enumerate(toks):
@@ -91,10 +120,10 @@ def label_faults(kind, t):
     return out
 
 
-def mask(dump, kind):
+def mask(dump, kind, dyn=False):
     """drop the faulted label's own value (and the flags the type checker derives from it)"""
     d = json.loads(json.dumps(dump))
-    t = d["templates"][0]
+    t = d["templates"][0]        # dynamic templates are listed separately
     if kind in ("guard", "synchronisation", "assignment"):
         t["edges"][0][{"guard": "guard", "synchronisation": "sync", "assignment": "assign"}[kind]] = "<masked>"
     elif kind == "probability":
@@ -110,31 +139,43 @@ def mask(dump, kind):
 
 
 def run_label(arg):
-    kind, t, i, n = arg
+    kind, t, i, n = arg[:4]
+    dyn = len(arg) > 4 and arg[4]
     part = engine.Part()
     w = engine.worker("fast")
-    faults = [f for k, f in enumerate(label_faults(kind, t)) if k % n == i]
+    faults = [f for k, f in enumerate(label_faults(kind, t, dyn)) if k % n == i]
     refs = {}
-    for stat in ("auto", "off"):
-        r = X.run_docs(w, [model(kind, LABELS[kind][0])], want=["dump"], extra={"static": stat})[0]
-        if r.get("errors") or r.get("exc"):
-            raise RuntimeError("C16 generator bug: base model rejected: %s" % X.msgs(r))
-        refs[stat] = mask(r["dump"], kind)
-    docs = [model(kind, txt) for _, txt in faults]
+    xpath = XPATH[kind].replace("template[1]", "template[3]") if dyn else XPATH[kind]
+    for base in (DYN_LABELS if dyn else LABELS)[kind]:
+        for stat in ("auto", "off"):
+            r = X.run_docs(w, [model(kind, base, dyn)], want=["dump"], extra={"static": stat})[0]
+            if r.get("died") or r.get("errors") or r.get("exc"):
+                # not a statement about fault isolation; counted so that a run in which base texts are rejected cannot pass for a
+                # full one (all are accepted on the pinned tree; main() insists on that unless the tree is a scratch copy)
+                if i == 0 and stat == "auto":
+                    part.count()
+                    part.outcome("base-text-rejected")
+                    part.sample({"base text rejected": base, "kind": kind, "errors": X.msgs(r)[:2] if not r.get("died") else "died"})
+                continue
+            m = mask(r["dump"], kind, dyn)
+            if stat in refs and refs[stat] != m:
+                raise RuntimeError("C16 generator bug: the masked reference depends on the base text")
+            refs[stat] = m
+    docs = [model(kind, txt, dyn) for _, txt in faults]
     res = X.run_docs(w, docs, want=["dump"], batch=40, extra={"static": "auto"})
     for (fid, txt), doc, r in zip(faults, docs, res):
         part.count()
         rp = {"op": "xml", "buf": doc, "want": ["dump"], "static": "auto", "label": kind, "text": txt}
-        if engine.check_crash(part, PID, r, "%s label `%s`" % (kind, txt), rp):
+        if engine.check_crash(part, PID, r, "%s label `%s`%s" % (kind, txt, " (dynamic templates)" if dyn else ""), rp):
             continue
-        part.nontrivial_case(kind + ":" + txt)
+        part.nontrivial_case(kind + (":dyn:" if dyn else ":") + txt)
         if r.get("exc") is not None:
             part.outcome("exception")
             part.violation("exception:%s:%s" % (kind, r["exc"]), "%s label `%s`: the whole parse ends in %s %s" %
                            (kind, txt, r["exc"], r.get("what", "")), rp)
             continue
         ref = refs["auto"] if r.get("static_ran") else refs["off"]
-        got = mask(r["dump"], kind)
+        got = mask(r["dump"], kind, dyn)
         d = diff(ref, got)
         if d:
             part.outcome("rest-of-document-changed")
@@ -142,13 +183,13 @@ def run_label(arg):
                            "%s label `%s` changes the document outside the label at %s: fault-free %s, now %s" %
                            (kind, txt, d[0], json.dumps(d[1])[:160], json.dumps(d[2])[:160]), rp)
             continue
-        wrong = [e for e in r.get("errors", []) if e["path"] != XPATH[kind]]
+        wrong = [e for e in r.get("errors", []) if e["path"] != xpath]
         if wrong:
             part.outcome("diagnostic-attributed-elsewhere")
             part.violation("diagnostic-elsewhere:%s:%s" % (kind, re.sub(r"\d+", "N", wrong[0]["path"])),
                            "%s label `%s`: diagnostic `%s` attributed to %s" % (kind, txt, wrong[0]["msg"], wrong[0]["path"]), rp)
             continue
-        part.outcome("isolated/" + ("errors" if r.get("errors") else "still-valid"))
+        part.outcome("isolated/" + ("errors" if r.get("errors") else "still-valid") + ("/dynamic-templates" if dyn else ""))
         if len(part.samples) < 1 and r.get("errors"):
             part.sample({"label": kind, "text": txt, "errors": X.msgs(r)[:2]})
     return part.result()
@@ -276,11 +317,13 @@ def main():
                         "lists of three declarations x fault in the 2nd/3rd x every truncation and token deletion, global and template-local."
                         % (len(SIGMA), 3 if t == "thorough" else 2, nfaults))
     n = engine.ncpu()
-    shards = [(k, t, i, n) for k in LABELS for i in range(n)]
+    shards = [(k, t, i, n) for k in LABELS for i in range(n)] + [(k, t, i, n, True) for k in DYN_LABELS for i in range(n)]
     for res in engine.pmap(run_label, shards):
         rep.merge(res)
     for res in engine.pmap(run_decls, [(where, t, i, n) for where in ("global", "local") for i in range(n)]):
         rep.merge(res)
+    if rep.outcomes.get("base-text-rejected") and not os.environ.get("UTAPV_REPO"):
+        raise RuntimeError("C16 generator bug: a fault-free base text is rejected: %s" % rep.samples[:3])
     rep.assumptions = ["the reference is the fault-free document parsed the same way (with static analysis iff the faulted parse ran it)",
                        "the faulted label's own value and the document-wide summary flags are masked"]
     sys.exit(rep.finish())
